@@ -215,6 +215,16 @@ def run_path(interp, fi, contract, case, ci, script):
             if type(ex).__name__ != 'MissingWitness':
                 raise
             v = False                # the witness the postcondition refers to does not exist on this path
+        hints = (contract.get('post_lemmas') or {}).get(e)
+        if hints:
+            # lemma instances needed by this clause only (kept out of the other clauses' queries)
+            npc = len(interp.pc)
+            interp.frames.append(fr1)
+            interp.assume_lemmas(hints, fr1)
+            interp.frames.pop()
+            interp.oblige('%s.post%d' % (key, i), v, 'post', line, note=e)
+            del interp.pc[npc:]
+            continue
         interp.oblige('%s.post%d' % (key, i), v, 'post', line, note=e)
     # vacuity canary: `False` at a reachable normal exit must NOT be provable
     interp.oblige('%s.canary' % key, z3.BoolVal(False), 'canary', line, note='must not be provable (vacuity guard)')
